@@ -14,7 +14,7 @@ Theorem command_page_bytes_complete_in_region W f sty app_name ch aliases help s
   (forall a, In a (chain_args ch) -> arg_name_ok a -> arg_written (f_styles f) a s)
   /\ (forall h, In h (own_opts ch) \/ In h (base_opts ch) -> opt_written h s)
   /\ (forall sb, In sb subs -> sb_enabled sb = true -> sb_anonymous sb = false -> sb_hidden sb = false ->
-        name_written W 2 (sb_name sb) s
+        (name_ok (sb_name sb) -> on_line (sb_name sb) s)
         /\ (forall a, In a (sb_args sb) -> arg_name_ok a -> arg_written (f_styles f) a s)
         /\ (forall h, In h (sb_opts sb) -> opt_written h s)).
 Proof.
@@ -27,7 +27,7 @@ Theorem application_page_bytes_complete_in_region W f sty app_name display versi
   (forall h, In h gopts -> opt_written h s)
   /\ arg_written (f_styles f) the_command_arg s /\ arg_written (f_styles f) the_arg_arg s
   /\ (forall c, In c cmds -> ac_enabled c && negb (ac_anonymous c) && negb (ac_hidden c) = true ->
-        ac_name c <> [] -> plain (ac_name c) -> no_nl (ac_name c) -> on_line (ac_name c) s).
+        name_ok (ac_name c) -> on_line (ac_name c) s).
 Proof.
   intros Hk Hr. destruct (in_region_renders_lemma W f _ (plain_not_null f Hk) Hr) as [s Hs]. exists s. split; [exact Hs|].
   exact (application_page_bytes_complete_lemma W f sty app_name display version gopts cmds help s Hk Hs).
@@ -41,25 +41,28 @@ Definition available_word (sty : styles) (cmds : list appcmd) (n : str) : Prop :
   infix_of n (vis sty H_AVAILABLE)
   \/ exists c, In c cmds /\ cmd_visible c = true /\ infix_of n (elem_vis sty (snd (cmd_line c))).
 
+(* The COMMANDS section of a command page in the region: a piece s2 of the page that holds every enabled, named, non-hidden
+   sub-command with its arguments and options, and in which every word (no white space in it) is a word of the heading or of the
+   visible characters of an element of the block of such a sub-command - a hidden or disabled command contributes nothing. *)
 Theorem hidden_never_printed_lemma W f sty app_name ch aliases help subs :
   f_kind f = FPlain -> in_region (f_styles f) W (command_page sty app_name ch aliases help subs) = true ->
-  exists s s1 s2 s3 ps, render_page W f (command_page sty app_name ch aliases help subs) = Ok s /\
-    s = s1 ++ s2 ++ s3 /\ Forall2 (shows (f_styles f)) (commands_section subs) ps /\ s2 = concat ps /\
+  exists s s1 s2 s3, render_page W f (command_page sty app_name ch aliases help subs) = Ok s /\
+    s = s1 ++ s2 ++ s3 /\ text_of (f_styles f) W (commands_section subs) s2 /\ section_complete (f_styles f) W subs s2 /\
     forall n, n <> [] -> spacefree n -> infix_of n s2 -> commands_word (f_styles f) subs n.
 Proof.
   intros Hk Hr. destruct (in_region_renders_lemma W f _ (plain_not_null f Hk) Hr) as [s Hs]. destruct (in_region_spec _ _ _ Hr) as [_ Hok].
-  destruct (commands_section_words W f sty app_name ch aliases help subs s Hk Hok Hs) as (s1 & s2 & s3 & ps & H1 & H2 & H3 & H4).
-  exists s, s1, s2, s3, ps. auto.
+  destruct (commands_section_words W f sty app_name ch aliases help subs s Hk Hok Hs) as (s1 & s2 & s3 & H1 & H2 & H4).
+  exists s, s1, s2, s3. split; [exact Hs|]. split; [exact H1|]. split; [exact H2|]. split; [now apply commands_section_text|exact H4].
 Qed.
 Theorem hidden_never_printed_app_lemma W f sty app_name display version gopts cmds help :
   f_kind f = FPlain -> in_region (f_styles f) W (application_page sty app_name display version gopts cmds help) = true ->
-  exists s s1 s2 s3 ps, render_page W f (application_page sty app_name display version gopts cmds help) = Ok s /\
-    s = s1 ++ s2 ++ s3 /\ Forall2 (shows (f_styles f)) (available_section cmds) ps /\ s2 = concat ps /\
+  exists s s1 s2 s3, render_page W f (application_page sty app_name display version gopts cmds help) = Ok s /\
+    s = s1 ++ s2 ++ s3 /\ text_of (f_styles f) W (available_section cmds) s2 /\
     forall n, n <> [] -> spacefree n -> infix_of n s2 -> available_word (f_styles f) cmds n.
 Proof.
   intros Hk Hr. destruct (in_region_renders_lemma W f _ (plain_not_null f Hk) Hr) as [s Hs]. destruct (in_region_spec _ _ _ Hr) as [_ Hok].
-  destruct (available_section_words W f sty app_name display version gopts cmds help s Hk Hok Hs) as (s1 & s2 & s3 & ps & H1 & H2 & H3 & H4).
-  exists s, s1, s2, s3, ps. auto.
+  destruct (available_section_words W f sty app_name display version gopts cmds help s Hk Hok Hs) as (s1 & s2 & s3 & H1 & H2 & H4).
+  exists s, s1, s2, s3. auto.
 Qed.
 
 (* ---- the ANSI formatter: the visible text (SGR sequences removed) of a page without ESC and backslash is the plain page ---- *)
@@ -67,11 +70,13 @@ Theorem hidden_never_printed_ansi_lemma W f sty app_name ch aliases help subs s 
   is_ansi f -> good_layout (command_page sty app_name ch aliases help subs) ->
   in_region (f_styles f) W (command_page sty app_name ch aliases help subs) = true ->
   render_page W f (command_page sty app_name ch aliases help subs) = Ok s ->
-  exists s1 s2 s3 ps, strip_sgr s = s1 ++ s2 ++ s3 /\ Forall2 (shows (f_styles f)) (commands_section subs) ps /\ s2 = concat ps /\
+  exists s1 s2 s3, strip_sgr s = s1 ++ s2 ++ s3 /\ text_of (f_styles f) W (commands_section subs) s2 /\
+    section_complete (f_styles f) W subs s2 /\
     forall n, n <> [] -> spacefree n -> infix_of n s2 -> commands_word (f_styles f) subs n.
 Proof.
   intros Hk Hg Hr Hs. apply (ansi_page_visible_lemma W f _ s Hk Hg) in Hs. destruct (in_region_spec _ _ _ Hr) as [_ Hok].
-  exact (commands_section_words W (as_plain f) sty app_name ch aliases help subs (strip_sgr s) (as_plain_kind f) Hok Hs).
+  destruct (commands_section_words W (as_plain f) sty app_name ch aliases help subs (strip_sgr s) (as_plain_kind f) Hok Hs) as (s1 & s2 & s3 & H1 & H2 & H4).
+  exists s1, s2, s3. split; [exact H1|]. split; [exact H2|]. split; [now apply (commands_section_text (f_styles f))|exact H4].
 Qed.
 Theorem page_bytes_are_the_visible_texts_ansi W f l s : is_ansi f -> good_layout l -> layout_ok (f_styles f) W l ->
   render_page W f l = Ok s -> filter nsp (strip_sgr s) = concat (map (fun x => elem_vis (f_styles f) (snd x)) l).
